@@ -68,10 +68,13 @@ type refClause struct {
 func refSelector(s string) (key string, clauses []refClause, err error) {
 	parts := refSplitSelector(s)
 	key = parts[0]
+	// A '/' at the very end is taken as a terminator, not as the start of one more (empty) clause: the grammar of the
+	// statement does not settle it and gts reads it that way ("gene/" is "gene", "gene//" has one empty clause).
+	if n := len(parts); n > 1 && parts[n-1] == "" {
+		parts = parts[:n-1]
+	}
 	for _, p := range parts[1:] {
-		if p == "" {
-			continue // outside the generated domain; gts skips it too
-		}
+		// a literally empty clause is an unnamed clause with an empty regexp: some qualifier must have some value
 		name, raw := p, ""
 		if i := strings.IndexByte(p, '='); i >= 0 {
 			name, raw = p[:i], p[i+1:]
@@ -585,6 +588,9 @@ func c19GenSelector(t *rapid.T, allowBad bool) string {
 			name = rapid.SampledFrom(c19Names).Draw(t, "cname")
 		}
 		b.WriteString(name)
+		if name == "" && rapid.IntRange(0, 3).Draw(t, "bare") == 0 {
+			continue // a literally empty clause ("gene//", "//"): unnamed, empty regexp
+		}
 		if name == "" || rapid.Bool().Draw(t, "hasre") {
 			b.WriteByte('=')
 			re := rapid.SampledFrom(c19Res).Draw(t, "re")
